@@ -51,6 +51,13 @@ try:
     os.makedirs(dst, exist_ok=True)
     if src['patch'] != f'{dst}/patch.diff':
         shutil.copy(src['patch'], f'{dst}/patch.diff'); shutil.copy(src_demo_orig, f'{dst}/demo.py')
+    # a note written by hand (documented non-detection) survives a re-evaluation as long as the seed is still not caught
+    try:
+        old_note = json.load(open(f'{dst}/meta.json')).get('note')
+    except Exception:
+        old_note = None
+    if old_note and not meta.get('caught_by') and not meta.get('note'):
+        meta['note'] = old_note
     json.dump(meta, open(f'{dst}/meta.json', 'w'), indent=1)
     print(pid, k, 'valid' if valid else f'INVALID(suite={suite.returncode},demo_with={demo_mut.returncode},demo_without={demo_clean.returncode})',
           {c: (r['exit'], r['signatures'][:1]) for c, r in res.items()})
